@@ -87,3 +87,19 @@ pub fn enumerate_vec<T>(v: Vec<T>) -> (r: Vec<(usize, T)>)
 // maplit::hashmap!{ k => v } with one entry; u64::to_string (string contents are not modelled beyond this)
 #[verifier::external_body] pub fn hashmap1(k: String, v: String) -> (r: HashMap<String, String>) { let mut m = HashMap::new(); m.insert(k, v); m }
 #[verifier::external_body] pub fn u64_to_string(x: u64) -> String { x.to_string() }
+// X.iter().map(C).collect::<BTreeSet<u64>>() on a Vec (R18): the set of the closure's results
+#[verifier::external_body]
+pub fn iter_map_collect_set<T, F: Fn(&T) -> u64>(v: &Vec<T>, f: F) -> (r: BTreeSet<u64>)
+    requires forall|i: int| 0 <= i < v.len() ==> f.requires((&#[trigger] v[i],))
+    ensures forall|k: u64| #[trigger] r@.contains(k) ==> exists|i: int| 0 <= i < v.len() && f.ensures((&#[trigger] v[i],), k),
+            forall|i: int| #![trigger v[i]] 0 <= i < v.len() ==> exists|k: u64| #![trigger r@.contains(k)] f.ensures((&v[i],), k) && r@.contains(k),
+{ v.iter().map(f).collect() }
+// map.keys().cloned().collect::<BTreeSet<u64>>()
+#[verifier::external_body]
+pub fn hashmap_keys_set<V>(m: &HashMap<u64, V>) -> (r: BTreeSet<u64>)
+    ensures forall|k: u64| #[trigger] r@.contains(k) <==> m@.contains_key(k)
+{ m.keys().cloned().collect() }
+#[verifier::external_body]
+pub fn btreeset_is_subset(a: &BTreeSet<u64>, b: &BTreeSet<u64>) -> (r: bool)
+    ensures r == a@.subset_of(b@)
+{ a.is_subset(b) }
